@@ -69,7 +69,7 @@ def write_evidence(pid, tier, seed, mod, stats, wall, violations, extra=None):
         "wall_s": round(wall, 2),
         "violations": int(violations),
     }
-    d = os.path.join(ROOT, "evidence")
+    d = os.environ.get("VERIF_EVIDENCE_DIR") or os.path.join(ROOT, "evidence")  # the override is a developer aid for runs against scratch worktrees
     os.makedirs(d, exist_ok=True)
     tmp = os.path.join(d, pid + ".json.tmp")
     with open(tmp, "w") as f:
